@@ -116,8 +116,9 @@ class Scenario:
                 raw = self.resp_pdu(real, r, doc)
                 owner = [q for q in self.req if self.req[q]["id"] == real]      # a flipped generation may be another request's id
                 fits = True
-                if self.svc == "extend" and owner:        # the extending service checks the reply's times against the request that owns the id
-                    fits = (self.req[owner[0]]["aggr"], self.req[owner[0]]["pub"]) == (self.req[r]["aggr"], self.req[r]["pub"])
+                if self.svc == "extend":        # the extending service checks the reply's times against the request that owns the id; times are unique per
+                    # request, so a reply whose id has no owner yet (a later request may get exactly this id) will not fit that later owner either
+                    fits = bool(owner) and (self.req[owner[0]]["aggr"], self.req[owner[0]]["pub"]) == (self.req[r]["aggr"], self.req[r]["pub"])
                 m = dict(k="resp", id=self.small(real), status=0, hashok=bool(owner) and self.req[owner[0]]["doc"] == doc, fits=fits)
         elif kind == "unknown":
             real = 0x7fff0000 + rng.randrange(100)
